@@ -586,6 +586,9 @@ class Analysis:
         if r0[0] == 'ptr' and r0[1][0] == 'gamma':
             g = r0[1]
             return mk('gamma', g[1], self._load_via(g[2], path[1:], st), self._load_via(g[3], path[1:], st))
+        if r0[0] == 'ptr' and r0[1][0] == 'Gamma':
+            g = r0[1]
+            return ('Gamma', g[1], tuple((k, self._load_via(x, path[1:], st)) for k, x in g[2]))
         v = store.get(path)
         n = len(path)
         if v is None:
@@ -1232,6 +1235,8 @@ class Analysis:
             return v[1]
         if v[0] == 'gamma':
             return mk('gamma', v[1], self._unwrap(v[2]), self._unwrap(v[3]))
+        if v[0] == 'Gamma':
+            return ('Gamma', v[1], tuple((k, self._unwrap(x)) for k, x in v[2]))
         return ('uf', 'unwrap', v)
 
     def _opt_map(self, last, A, st, bb):
@@ -1346,9 +1351,15 @@ class Analysis:
         ids = {x[1] for x in walk(('tuple', item)) if x[0] == 'iterpos'}
         item = self.deref_val(item, st) if item[0] == 'ref' else item
 
+        # de Bruijn level for the new bound position: one above any bound variable already inside the element term
+        lvl = 0
+        for x in walk(('tuple', item)):
+            if x[0] == 'bound':
+                lvl = max(lvl, x[1] + 1)
+
         def rb(x):
             if x[0] == 'iterpos':
-                return ('bound', 0)
+                return ('bound', lvl)
             return x
         item = map_term(item, rb)
         return ('seq', tuple(src), item)
@@ -1470,6 +1481,8 @@ class Analysis:
                     for c in p[1:]:
                         v = self.project(v, c, pre_st)
                     return v
+                if r[0] == 'ptr':
+                    return self.resimplify(x, pre_st)
                 return x
             if op == 'ref':
                 p = x[1]
@@ -1489,6 +1502,17 @@ class Analysis:
                 r = p[0]
                 if r[0] == 'obj' and r[1] - 1 < len(A) and A[r[1] - 1][0] == 'ref':
                     return ('iter', 'slice', A[r[1] - 1][1] + p[1:]) + x[3:]
+            if op == 'seq':
+                srcs = []
+                for src in x[1]:
+                    new_src = []
+                    for y in src:
+                        if _is_path(y) and y[0][0] == 'obj' and y[0][1] - 1 < len(A) and A[y[0][1] - 1][0] == 'ref':
+                            new_src.append(A[y[0][1] - 1][1] + y[1:])
+                        else:
+                            new_src.append(y)
+                    srcs.append(tuple(new_src))
+                return ('seq', tuple(srcs), x[2])
             return self.resimplify(x, pre_st)
         new = []
         for p, v in s.writes.items():
@@ -1518,6 +1542,8 @@ class Analysis:
     def resimplify(self, x, st):
         """re-normalise nodes whose children became concrete after a substitution"""
         op = x[0]
+        if op == 'pre' and x[1][0][0] == 'ptr' and x[1][0][1][0] in ('ref', 'constref', 'gamma', 'Gamma') and st is not None:
+            return self.load(x[1], st) if x[1][0][1][0] in ('gamma', 'Gamma') else self._load_via(x[1][0][1], x[1][1:], st)
         if op == 'uf':
             n = x[1]
             if n == 'unwrap_or' and len(x) == 4:
